@@ -8,7 +8,28 @@ Definition amodes := [ALoose; AStrict; ACenter].
 Record obs1 := O1 { o_idx : list Z; o_rng : list (Z * Z) }.
 Inductive case :=
 | KSeg (dur step start : Z) (focus : seg) (fixed : option Z) (obs : list obs1)     (* loose, strict, center *)
-| KTl (eps dur step start : Z) (focus : list seg) (obs : list obs1).
+| KTl (eps dur step start : Z) (focus : list seg) (obs : list obs1)
+(* arbitrary binary64 inputs, given exactly as integers in units of 2^-130 s; obs = the range per mode *)
+| KSegF (dur step start : Z) (focus : seg) (obs : list (Z * Z)).
+
+(* tolerance tier. A bound is round(n / d) for a rounding r in {floor, ceil, half-even}. The float code
+   computes n / d with an error of at most a few units in the last place of its OPERANDS (the
+   subtractions may cancel), i.e. at most [slack] / (d * 2^40) for slack = sum of |operands| + d, which
+   is 2^13 times the worst case: the observed bound must be the rounding of some quotient in
+   [n/d - delta, n/d + delta]. Rounding being monotone, that is  r(lo) <= v <= r(hi). *)
+Definition tol_ok (r : Z -> Z -> Z) (n d slack v : Z) : bool :=
+  let D := d * 2 ^ 40 in
+  (r (n * 2 ^ 40 - slack) D <=? v) && (v <=? r (n * 2 ^ 40 + slack) D).
+Definition rangeF_ok (dur step start : Z) (f : seg) (m : amode) (o : Z * Z) : bool :=
+  let slack := Z.abs (st f) + Z.abs (en f) + Z.abs dur + Z.abs start + step in
+  match m with
+  | ALoose => tol_ok cdiv (st f - dur - start) step slack (fst o)
+              && tol_ok fdiv (en f - start) step slack (snd o - 1)
+  | AStrict => tol_ok cdiv (st f - start) step slack (fst o)
+               && tol_ok fdiv (en f - dur - start) step slack (snd o - 1)
+  | ACenter => tol_ok rhe (2 * (st f - start) - dur) (2 * step) (2 * slack) (fst o)
+               && tol_ok rhe (2 * (en f - start) - dur) (2 * step) (2 * slack) (snd o - 1)
+  end.
 
 (* the index set described by half-open runs (inverted runs are empty) *)
 Definition runs_indices (rs : list (Z * Z)) : list Z := flat_map (fun r => zrange (fst r) (snd r)) rs.
@@ -42,4 +63,7 @@ Definition check (c : case) : nat :=
                        list_eqb zz_eqb (o_rng o) (crop_ranges_tl eps w f m)) obs amodes in
           verdict spec_ok model_eq
       end
+  | KSegF dur step start focus obs =>
+      if (0 <? dur) && (0 <? step) && forall2b (fun o m => rangeF_ok dur step start focus m o) obs amodes
+      then 0%nat else 1%nat
   end.
